@@ -26,7 +26,7 @@ var suitesByProp = map[string][]func(*runner, *rng){
 	"C17": {suiteSchedules, suiteStlIO},
 	"C19": {suiteDeterminism},
 	"C08": {suiteTotality, suiteTeletextHostile},
-	"C06": {suiteTeletext, suiteTeletextModel},
+	"C06": {suiteTeletext, suiteTeletextModel, suiteTeletextHamming},
 	"C07": {suiteConvert, suiteConvertModel, suiteConvertOps, suiteConvertCLI, suiteConvertRich, suiteConvertPlain, suiteConvertCLIModel, suiteConvertPlainStyled},
 	"C20": {suiteConcurrency},
 	"C18": {suiteFaults, suiteStlIO},
